@@ -723,8 +723,17 @@ Definition chk_no_change (k : case) : bool :=
   k_distrust k || spec_no_change (k_cs k) (k_ob k).
 Definition chk_rec_sound (k : case) : bool :=
   negb (o_recs (k_opts k)) || spec_rec_sound (k_cs k) (k_ob k).
+(* "the entries of a (chromosome, family)" are what the real write_recombination_list writes for that traced
+   instance alone (k_inst_recs); without them, what the model's per-call function gives *)
 Definition chk_rec_cover (k : case) : bool :=
-  negb (o_recs (k_opts k)) || spec_rec_cover (k_cs k) (k_ob k).
+  negb (o_recs (k_opts k)) ||
+  match k_inst_recs k with
+  | Some real => match entries_of (ob_recs (k_ob k)) with
+                 | Some es => perm_eqb ce_eqb es (concat real)
+                 | None => false
+                 end
+  | None => spec_rec_cover (k_cs k) (k_ob k)
+  end.
 
 Definition with_run (gr rr : wrule) (pr : posrule) (k : case) (f : outputs -> bool) : bool :=
   match run gr rr pr (k_opts k) (k_ids k) (k_samples k) (k_cs k) with
